@@ -142,8 +142,8 @@ Print Assumptions list_property_consumed.
 (* binary files (both byte orders), face element made of any list properties (none called texcoord), the index
    property at position ip with int or uint items, every face listing three or four vertices: the index buffer of
    the mesh is the concatenation, in face order, of the triangle itself or of the fan (0,1,2),(0,2,3).
-   _partial: ascii faces and faces with a texcoord list (per-corner UVs, unweld) are covered by the
-   correspondence check only.  FULL STATEMENT: the same for ascii and with a texcoord property present. *)
+   _partial: faces with a texcoord list (per-corner UVs, unweld) are covered by the correspondence check only.
+   FULL STATEMENT: the same with a texcoord property present (corner order of the unwelded mesh). *)
 Theorem quad_fan_partial : forall e rs ip ct lt (fs : list (list (list N))) rest st,
   nth_error rs ip = Some (ct, lt) -> index_ty_ok lt = true ->
   Forall (face_ok rs ip) fs ->
@@ -151,6 +151,16 @@ Theorem quad_fan_partial : forall e rs ip ct lt (fs : list (list (list N))) rest
   Ok (flat_map (fun f => fan_tris (map signed32 (nth ip f []))) fs, []).
 Proof. exact quad_fan_bin_proof. Qed.
 Print Assumptions quad_fan_partial.
+
+(* the same for ascii files, one face per line (int items read signed, uint items unsigned) *)
+Theorem quad_fan_ascii_partial : forall rs ip ct lt (fs : list (list (list N))) st,
+  rs <> [] -> nth_error rs ip = Some (ct, lt) -> index_ty_ok lt = true ->
+  Forall (fun f => List.length f = List.length rs /\
+                   (List.length (nth ip f []) = 3%nat \/ List.length (nth ip f []) = 4%nat)) fs ->
+  faces_ascii rs ip None (map (enc_face_ascii rs) fs) (List.length fs) st =
+  Ok (flat_map (fun f => fan_tris (map (idx_ascii lt) (nth ip f []))) fs, []).
+Proof. exact quad_fan_ascii_proof. Qed.
+Print Assumptions quad_fan_ascii_partial.
 
 (* ---- comment and obj_info lines, blank lines, aliases ---- *)
 
